@@ -249,17 +249,37 @@ theorem Prov.register {T U : List Nat} {s s' : Sys} (h : Prov T U s) (t : Nat) (
   unfold Sys.register at hr
   split at hr
   · simp only [Option.some.injEq] at hr; subst hr; exact h
-  · split at hr
-    · cases hr
-    · simp only [Option.some.injEq] at hr
+  · have h1 := h.setTh t { s.th t with registered := true } (h.threads t)
+    have hnew : ∀ c ∈ (Ring.new Consts.ringCap : Ring Cmd).q, CmdOk T c := by simp [Ring.new]
+    cases hc : s.cyc with
+    | none =>
+      rw [hc] at hr
+      simp only [Option.some.injEq] at hr
       subst hr
-      have h1 := h.setTh t { s.th t with registered := true } (h.threads t)
       refine ⟨h1.spans, h1.adapters, h1.threads, ?_, h1.cyc, h1.coll⟩
       intro e he
       simp only [List.mem_append, List.mem_singleton] at he
       rcases he with he | rfl
       · exact h.rxs e he
-      · simp [Ring.new]
+      · exact hnew
+    | some cs =>
+      rw [hc] at hr
+      dsimp only at hr
+      split at hr
+      · cases hr
+      · simp only [Option.some.injEq] at hr
+        subst hr
+        obtain ⟨c1, c2, c3⟩ := h.cyc cs hc
+        refine ⟨h1.spans, h1.adapters, h1.threads, h1.rxs, ?_, h1.coll⟩
+        intro cs' hcs'
+        simp only [Option.some.injEq] at hcs'
+        subst hcs'
+        refine ⟨c1, ?_, c3⟩
+        intro e he
+        simp only [List.mem_append, List.mem_singleton] at he
+        rcases he with he | rfl
+        · exact c2 e he
+        · exact hnew
 
 theorem Prov.ringOf {T U : List Nat} {s : Sys} (h : Prov T U s) {t : Nat} {r : Ring Cmd} (hr : s.ringOf t = some r) :
     ∀ c ∈ r.q, CmdOk T c := by
